@@ -107,16 +107,38 @@ def _arg(call: ast.Call, pos: int, kw: str):
     return None
 
 
+def _is_getter_of(v: FuncView, e, getter: str, arg: str) -> bool:
+    """`e` is `self.<getter>(<arg>)`, possibly through a bound-method alias (`meta_of = self.get_edge_metadata`)"""
+    if not isinstance(e, ast.Call) or not e.args:
+        return False
+    fn = v.resolve(e.func) if isinstance(e.func, ast.Name) else e.func
+    return isinstance(fn, ast.Attribute) and fn.attr == getter and is_self_attr(fn) and isinstance(e.args[0], ast.Name) and e.args[0].id == arg
+
+
 def _local_transfer_loops(v: FuncView, h: str, setter: str, getter: str):
-    """`for X in ITER: h.<setter>(X, self.<getter>(X))` loops."""
+    """`for X in ITER: h.<setter>(X, self.<getter>(X))` loops, also with the values collected first:
+    `D = {X: self.<getter>(X) for X in ITER}; for X, M in D.items(): h.<setter>(X, M)`."""
     out = []
     for n in walk_no_nested(v.fi.node):
-        if isinstance(n, ast.For) and isinstance(n.target, ast.Name):
-            x = n.target.id
-            for c in ast.walk(n):
-                if isinstance(c, ast.Call) and isinstance(c.func, ast.Attribute) and c.func.attr == setter and isinstance(c.func.value, ast.Name) and c.func.value.id == h and len(c.args) >= 2:
-                    a0, a1 = c.args[0], c.args[1]
-                    if isinstance(a0, ast.Name) and a0.id == x and isinstance(a1, ast.Call) and isinstance(a1.func, ast.Attribute) and a1.func.attr == getter and is_self_attr(a1.func) and a1.args and isinstance(a1.args[0], ast.Name) and a1.args[0].id == x:
+        if not isinstance(n, ast.For):
+            continue
+        calls = [c for c in ast.walk(n) if isinstance(c, ast.Call) and isinstance(c.func, ast.Attribute) and c.func.attr == setter and isinstance(c.func.value, ast.Name) and c.func.value.id == h and len(c.args) >= 2]
+        for c in calls:
+            a0, a1 = c.args[0], c.args[1]
+            if not isinstance(a0, ast.Name):
+                continue
+            if isinstance(n.target, ast.Name) and a0.id == n.target.id and _is_getter_of(v, v.inline(a1, depth=1) if isinstance(a1, ast.Name) else a1, getter, a0.id):
+                out.append(n)
+            elif isinstance(n.target, ast.Tuple) and len(n.target.elts) == 2 and all(isinstance(t, ast.Name) for t in n.target.elts) and a0.id == n.target.elts[0].id and isinstance(a1, ast.Name) and a1.id == n.target.elts[1].id:
+                it = n.iter
+                if isinstance(it, ast.Call) and isinstance(it.func, ast.Name) and it.func.id == "zip" and len(it.args) == 2:
+                    # M = [self.<getter>(X) for X in A]; for X, m in zip(A, M): h.<setter>(X, m)
+                    lst = v.resolve(it.args[1]) if isinstance(it.args[1], ast.Name) else it.args[1]
+                    if isinstance(lst, ast.ListComp) and len(lst.generators) == 1 and not lst.generators[0].ifs and isinstance(lst.generators[0].target, ast.Name) and norm(lst.generators[0].iter) == norm(it.args[0]) and _is_getter_of(v, lst.elt, getter, lst.generators[0].target.id):
+                        out.append(n)
+                if isinstance(it, ast.Call) and isinstance(it.func, ast.Attribute) and it.func.attr == "items" and not it.args:
+                    d = v.resolve(it.func.value) if isinstance(it.func.value, ast.Name) else it.func.value
+                    if isinstance(d, ast.DictComp) and len(d.generators) == 1 and isinstance(d.generators[0].target, ast.Name) and isinstance(d.key, ast.Name) and d.key.id == d.generators[0].target.id and _is_getter_of(v, d.value, getter, d.key.id):
                         out.append(n)
     return out
 
@@ -300,6 +322,15 @@ def _under_subset_test(v: FuncView, node) -> bool:
     """`node` is reached only through one branch of a test `<set>.issubset(...)` / `.issuperset(...)` (either the
     enclosing `if` or an earlier `if not ...: continue`); which branch is the business of X-SUBSET"""
     nid = v.cfg_id(node)
+    # a batch insertion of a list that was filled under the test: `if not set(e) <= wanted: continue; inside.append(e)`
+    if isinstance(node, ast.Call) and isinstance(node.func, ast.Attribute) and node.func.attr == "add_edges" and node.args and isinstance(node.args[0], ast.Name):
+        lst = node.args[0].id
+        fills = [c for c in walk_no_nested(v.fi.node) if isinstance(c, ast.Call) and isinstance(c.func, ast.Attribute) and c.func.attr == "append" and isinstance(c.func.value, ast.Name) and c.func.value.id == lst]
+        if fills and all(_under_subset_test(v, c) for c in fills):
+            return True
+        d = v.resolve(node.args[0])
+        if isinstance(d, ast.ListComp) and any(_is_subset_call(x) or (isinstance(x, ast.Compare) and isinstance(x.ops[0], (ast.LtE, ast.GtE))) for g in d.generators for i in g.ifs for x in ast.walk(i)):
+            return True
     for i in walk_no_nested(v.fi.node):
         if isinstance(i, ast.If) and any(_is_subset_call(x) or (isinstance(x, ast.Compare) and len(x.ops) == 1 and isinstance(x.ops[0], (ast.LtE, ast.GtE, ast.Lt, ast.Gt)) and isinstance(v.kind(x.left), type(v.kind(x.comparators[0]))) and "SET" in repr(v.kind(x.left))) for x in ast.walk(i.test)):
             tid = v.cfg.by_ast.get(id(i.test))
@@ -321,29 +352,43 @@ def _param_derived(v: FuncView, e, depth: int = 0) -> bool:
     return False
 
 
+def _subset_tests(v: FuncView):
+    """[(node, subset expr, superset expr)] for `A.issubset(B)`, `B.issuperset(A)`, `A <= B`, `B >= A` on sets"""
+    from .kinds import St
+
+    out = []
+    for n in walk_no_nested(v.fi.node):
+        if _is_subset_call(n):
+            a, b = n.func.value, n.args[0]
+            out.append((n, a, b) if n.func.attr == "issubset" else (n, b, a))
+        elif isinstance(n, ast.Compare) and len(n.ops) == 1 and isinstance(n.ops[0], (ast.LtE, ast.GtE)):
+            l, r = n.left, n.comparators[0]
+            if isinstance(v.kind(l), St) or isinstance(v.kind(r), St) or (isinstance(l, ast.Call) and norm(l.func) in ("set", "frozenset")) or (isinstance(r, ast.Call) and norm(r.func) in ("set", "frozenset")):
+                out.append((n, l, r) if isinstance(n.ops[0], ast.LtE) else (n, r, l))
+    return out
+
+
 def check_subset_orientation(ctx, res: Result, dotted: str):
     """`set(edge).issubset(set(nodes))`: the hyperedge is the subset, the requested node set the superset."""
     v = ctx.view(dotted)
     f = v.fi.short
-    n_found = 0
-    for n in walk_no_nested(v.fi.node):
-        if _is_subset_call(n):
-            n_found += 1
-            recv_nodes = _param_derived(v, n.func.value)  # the requested node set comes from the parameter,
-            arg_nodes = _param_derived(v, n.args[0])  # the hyperedge from the loop over the source's hyperedges
-            if recv_nodes == arg_nodes:
-                res.unknown("X-SUBSET", f, norm(n), "orientation", "could not tell the hyperedge from the requested node set", loc(v.fi, n))
-                continue
-            # sub-hypergraph induced by the node set: hyperedge <= node set
-            good = (arg_nodes and not recv_nodes) if n.func.attr == "issubset" else (recv_nodes and not arg_nodes)
-            # the positive outcome of the test must be the one that keeps the hyperedge
-            pol = _keeps_on(v, n)
-            if pol is None:
-                res.add("X-SUBSET", f, norm(n), "orientation", "ok" if good else "violation", "" if good else "the induced sub-hypergraph keeps hyperedges that CONTAIN the node set instead of those contained in it", loc(v.fi, n))
-            else:
-                res.check(good == pol, "X-SUBSET", f, norm(n), "orientation", "the induced sub-hypergraph keeps hyperedges that CONTAIN the node set instead of those contained in it" if pol else "the induced sub-hypergraph keeps exactly the hyperedges that are NOT contained in the node set", loc(v.fi, n))
-    if n_found == 0:
-        raise AnalysisError(f"{f}: no issubset test (anchor of X-SUBSET vanished or idiom unrecognised)")
+    tests = _subset_tests(v)
+    for n, sub, sup in tests:
+        sub_nodes = _param_derived(v, sub)  # the requested node set comes from the parameter,
+        sup_nodes = _param_derived(v, sup)  # the hyperedge from the loop over the source's hyperedges
+        if sub_nodes == sup_nodes:
+            res.unknown("X-SUBSET", f, norm(n), "orientation", "could not tell the hyperedge from the requested node set", loc(v.fi, n))
+            continue
+        # sub-hypergraph induced by the node set: hyperedge <= node set
+        good = sup_nodes and not sub_nodes
+        # the positive outcome of the test must be the one that keeps the hyperedge
+        pol = _keeps_on(v, n)
+        if pol is None:
+            res.add("X-SUBSET", f, norm(n), "orientation", "ok" if good else "violation", "" if good else "the induced sub-hypergraph keeps hyperedges that CONTAIN the node set instead of those contained in it", loc(v.fi, n))
+        else:
+            res.check(good == pol, "X-SUBSET", f, norm(n), "orientation", "the induced sub-hypergraph keeps hyperedges that CONTAIN the node set instead of those contained in it" if pol else "the induced sub-hypergraph keeps exactly the hyperedges that are NOT contained in the node set", loc(v.fi, n))
+    if not tests:
+        raise AnalysisError(f"{f}: no subset test (anchor of X-SUBSET vanished or idiom unrecognised)")
 
 
 def _keeps_on(v: FuncView, test_call) -> Optional[bool]:
